@@ -115,11 +115,11 @@ theorem finish_ne_fuel (fs : List Field) (slots : List (Int × TVal)) : finish f
   | nil => simp [finish]
   | cons f fs ih => simp only [finish]; osplit
 
-theorem mapOut_panic {α β} (g : α → β) (x : Out α) (m : String) : mapOut g x = .panic m ↔ x = .panic m := by
+theorem mapOut_eq_panic {α β} (g : α → β) (x : Out α) (m : String) : mapOut g x = .panic m ↔ x = .panic m := by
   cases x <;> simp [mapOut]
-theorem mapOut_fuel {α β} (g : α → β) (x : Out α) : mapOut g x = .fuel ↔ x = .fuel := by
+theorem mapOut_eq_fuel {α β} (g : α → β) (x : Out α) : mapOut g x = .fuel ↔ x = .fuel := by
   cases x <;> simp [mapOut]
-theorem mapOut_ok {α β} (g : α → β) (x : Out α) (b : β) : mapOut g x = .ok b ↔ ∃ a, x = .ok a ∧ g a = b := by
+theorem mapOut_eq_ok {α β} (g : α → β) (x : Out α) (b : β) : mapOut g x = .ok b ↔ ∃ a, x = .ok a ∧ g a = b := by
   cases x <;> simp [mapOut]
 
 section generic
@@ -141,7 +141,7 @@ theorem dec_nopanic : ∀ f,
     obtain ⟨ih1, ih2, ih3, ih4, ih5⟩ := ih
     refine ⟨?_, ?_, ?_, ?_, ?_⟩
     · intro ty s m hc h
-      cases ty <;> simp only [decTy, mapOut_panic] at h
+      cases ty <;> simp only [decTy, mapOut_eq_panic] at h
       case bool => exact (rbool s).1 m h
       case i8 => exact (ri8 s).1 m h
       case i16 => exact (ri16 s).1 m h
@@ -186,7 +186,7 @@ theorem dec_nopanic : ∀ f,
             osplit_at h
             · rename_i m' hse; exact (se _).1 _ hse
             · rename_i m' hdu; exact this _ hdf hdu
-          | enum => simp only [mapOut_panic] at h; exact (ri32 s).1 m h
+          | enum => simp only [mapOut_eq_panic] at h; exact (ri32 s).1 m h
           | typedef t => simp only [Def.closed] at hdf; simp only at h; exact ih1 t s m hdf h
       case void => simp [STy.closed] at hc
     · intro e n acc s m hc h
@@ -254,7 +254,7 @@ theorem dec_len : ∀ f,
     obtain ⟨ih1, ih2, ih3, ih4, ih5⟩ := ih
     refine ⟨?_, ?_, ?_, ?_, ?_⟩
     · intro ty s v s' h
-      cases ty <;> simp only [decTy, mapOut_ok] at h
+      cases ty <;> simp only [decTy, mapOut_eq_ok] at h
       case bool => obtain ⟨a, ha, hh⟩ := h; cases hh; exact bool_ok _ _ _ ha
       case i8 => obtain ⟨a, ha, hh⟩ := h; cases hh; exact i8_ok _ _ _ ha
       case i16 => obtain ⟨a, ha, hh⟩ := h; cases hh; exact i16_ok _ _ _ ha
@@ -276,7 +276,7 @@ theorem dec_len : ∀ f,
           cases df with
           | struct fs => simp only at h; osplit_at h <;> grind
           | union vs => simp only at h; osplit_at h <;> grind
-          | enum => simp only [mapOut_ok] at h; obtain ⟨a, ha, hh⟩ := h; cases hh; exact i32_ok _ _ _ ha
+          | enum => simp only [mapOut_eq_ok] at h; obtain ⟨a, ha, hh⟩ := h; cases hh; exact i32_ok _ _ _ ha
           | typedef t => simp only at h; exact ih1 _ _ _ _ h
       case void => simp at h
     · intro e n acc s xs s' h
@@ -318,7 +318,7 @@ theorem dec_nofuel : ∀ f,
     obtain ⟨l1, l2, l3, l4, l5⟩ := hlen f
     refine ⟨?_, ?_, ?_, ?_, ?_⟩
     · intro ty s hf h
-      cases ty <;> simp only [decTy, mapOut_fuel] at h
+      cases ty <;> simp only [decTy, mapOut_eq_fuel] at h
       case bool => exact (rbool s).2.1 h
       case i8 => exact (ri8 s).2.1 h
       case i16 => exact (ri16 s).2.1 h
@@ -343,7 +343,7 @@ theorem dec_nofuel : ∀ f,
             have := finish_ne_fuel fs
             osplit_at h <;> grind
           | union vs => simp only at h; osplit_at h <;> grind
-          | enum => simp only [mapOut_fuel] at h; exact (ri32 s).2.1 h
+          | enum => simp only [mapOut_eq_fuel] at h; exact (ri32 s).2.1 h
           | typedef t => simp only at h; have := hrk n t hfind; exact ih1 t s (by omega) h
       case void => simp at h
     · intro e n acc s hf h
